@@ -29,6 +29,18 @@ CHECKS["C17"] = dict(
    text="Every explored schedule (<= k deviations; quick 1-2, thorough 2-3) of 9 SCTP drivers is executed simultaneously on two real associations differing only in initial TSNs (2^32-1/-3/-8, hence RE-CONFIG sequence numbers) and stream sequence origins (65533..65535); enabled menus, observation logs, queue shapes and terminal verdicts must be identical. RTP side: jitter buffer, NACK generator, receiver statistics and sender history are driven through exhaustive arrival trees from small and near-wrap origins and compared. Serial arithmetic: all 2^32 16-bit pairs (thorough) / all a x 640 boundary offsets (quick), 32-bit boundary product.",
    note="DTLS stand-in; send never suspends; deviation bound k; origins taken from a listed set next to the wrap points.",
    design="2/C17")
+CHECKS["C07"] = dict(
+   level="model_checking",
+   technique="bounded-exhaustive enumeration of packet values (finite products of boundary domains, all subsets of extensions / NACK sets) through the real serialiser and parser, compared field by field",
+   text="Complete enumeration of finite products: RTP header fields at bounds x CSRC counts x padding x payload sizes; every configured-subset x set-subset of the 7 header extensions x 4 id maps incl. two-byte ids; value domains that flip one/two-byte form; SR/RR with 0..31 reports, SDES, BYE, PSFB, RTPFB and all compounds of length <= 3; NACK: 77 start pids at 0 and at the wrap x all subsets of the next 12 (quick) / 18 (thorough) sequence numbers in numeric and serial order, plus wire->parse for all 2^16 bitmasks at wrap pids; REMB for all bitrates < 2^20 and all exponents; loss saturation. Every case goes through the real code; the oracle is value equality / set equality mod 2^16 / the REMB error bound.",
+   note="Values strictly between listed boundary values are not enumerated; RTP padding bytes are random by design and excluded.",
+   design="2/C07")
+CHECKS["C08"] = dict(
+   level="model_checking",
+   technique="bounded-exhaustive enumeration: all chunk field products / all user-data lengths / all parameter lengths through real serialize_packet+parse_packet, and all bit bursts (position x length x pattern) of one packet per chunk type against the real checksum test",
+   text="Round trip: every chunk class x flags x boundary field products, DATA user data of every length 1..1200, parameter lists of 0-3 parameters with every value length 0..9, SACK gap/duplicate lists 0-4, FORWARD-TSN streams 0-4, RE-CONFIG parameter classes: field equality and byte-identical re-serialisation. Corruption: for one packet of each of the 15 chunk types every burst - all start bits x lengths 1..32 x all 2^(len-2) inner patterns for len <= 11 (quick) / 16 (thorough), 3 structured patterns above - must raise the checksum ValueError before any chunk object is constructed (CHUNK_TYPES is spied).",
+   note="google_crc32c arithmetic trusted; values between listed boundaries not enumerated; bursts longer than the full-pattern bound use 3 structured inner patterns.",
+   design="2/C08")
 NOT_YET = {}
 
 def main():
